@@ -100,7 +100,7 @@ def gen_history(rng):
             k += 1
         else:
             name = rng.choice(list(table))
-            pos = rng.choice(["start", "after-pipe", "after-semicolon", "after-and", "non-first-word", "start", "every-stage", "for-list", "after-own-definition"])
+            pos = rng.choice(["start", "after-pipe", "after-semicolon", "after-and", "non-first-word", "start", "every-stage", "for-list", "after-own-definition", "after-quoted-pipe-word"])
             op = {"op": "use", "name": name, "pos": pos, "k": k, "args": [rng.choice(["u1", "-v", "w w"] + ([rng.choice(sorted(table))] if table else [])) for _ in range(rng.randint(0, 2))]}
             if pos == "for-list":
                 # the words of a `for` list are data: the first of them is not a command word either
@@ -170,6 +170,12 @@ def judge(case, roundtrip=True):
                 lines.append(mark)
                 lines.append("%s %s %s%s" % (define_text(name, table[name]), ";" if k % 2 else "&&", name, argtxt))
                 exp = value_argvs(table[name], args)
+            elif op["pos"] == "after-quoted-pipe-word":
+                # a non-first word that follows an argument which is a quoted or escaped `|`: still not a command word
+                pw = ["'|'", '"|"', "\\|"][k % 3]
+                lines.append(mark)
+                lines.append("vp_argv N%d %s %s%s" % (k, pw, name, argtxt))
+                exp = [("vp_argv", ["N%d" % k, "|", name] + args)]
             elif op["pos"] == "for-list":
                 lines.append(mark)
                 lines.append("for w in %s%s" % (name, argtxt))
